@@ -183,7 +183,8 @@ def run(ctx):
                 continue
             dw += 1
             good = False
-            if kind == "init" and p.endswith("DeepEx::<'a, T, OF, LM>::new") and re.match(r"^std::string::ToString::to_string\('.*'\)$", term):
+            if kind == "init" and p.endswith("DeepEx::<'a, T, OF, LM>::new") and (re.match(r"^std::string::ToString::to_string\('.*'\)$", term) or
+                                                                              re.match(r"^std::string::String::new\(\)$|^std::default::Default::default\(\)$|^std::convert::From::from\('.*'\)$", term)):
                 good = True   # placeholder literals, overwritten by compile() right after construction
             if re.match(r"^expression::deep::detail::unparse_raw\(", term) and (p.endswith("::compile") or p.endswith("::new")):
                 good = True
